@@ -10,6 +10,7 @@ import (
 	"strings"
 	"time"
 
+	"github.com/goatcms/goatcore/app/modules/pipelinem/pipcommands/pipc"
 	"verifharness/pipx"
 )
 
@@ -23,6 +24,7 @@ func cmdTryTrace(args []string) error {
 	every := fl.Int("every", 1, "take every n-th program")
 	offset := fl.Int("offset", 0, "offset")
 	maxK := fl.Int("k", 2, "max body commands")
+	gate := fl.Bool("gate", false, "only programs whose finally handler fails; the next handler is submitted after that failure (try.handler hook)")
 	fl.Parse(args)
 	f, err := os.Create(*out)
 	if err != nil {
@@ -39,6 +41,9 @@ func cmdTryTrace(args []string) error {
 					for fmask := 0; fmask < 8 && !hung; fmask++ {
 						if fmask&^dmask != 0 {
 							continue // only defined handlers can fail
+						}
+						if *gate && (fmask&4 == 0 || dmask&3 == 0) {
+							continue
 						}
 						idx++
 						if idx%*every != *offset%*every {
@@ -89,6 +94,24 @@ func cmdTryTrace(args []string) error {
 						for _, h := range hfails {
 							wd.SetProbe(map[string]string{"success": "s1", "fail": "f1", "finally": "y1"}[h], true, 0)
 						}
+						pipc.VerifHook = nil
+						if *gate {
+							// forced schedule: the finally handler has failed (and the surrounding scope is done)
+							// before the fail / success handler is submitted
+							yEnded := wd.EndedCh("y1")
+							pipc.VerifHook = func(site, name string) {
+								if site == "try.handler" {
+									select {
+									case <-yEnded:
+										time.Sleep(5 * time.Millisecond)
+									case <-time.After(2 * time.Second):
+									}
+								}
+							}
+						}
+						if os.Getenv("VH_DEBUG") != "" {
+							fmt.Fprintf(os.Stderr, "PROGRAM k=%d failat=%d nested=%s defined=%v hfails=%v\n", k, failAt, nested, defined, hfails)
+						}
 						done := make(chan bool, 1)
 						go func() {
 							runErr := wd.Boot.Run()
@@ -109,6 +132,7 @@ func cmdTryTrace(args []string) error {
 			}
 		}
 	}
+	pipc.VerifHook = nil
 	bw.Flush()
 	f.Close()
 	b, _ := json.Marshal(map[string]interface{}{"programs": executed, "hung": hung})
